@@ -14,27 +14,43 @@
      sp_run / sp_step                          builds that log: an update is logged unless it is rejected (older than
                                                the track of its MMSI, or in ordered mode older than any track), a
                                                pop_track and every expiry are logged as removals
-     V                                         the type of attribute values (the code never looks inside a value)  *)
+     V                                         the type of attribute values (the code never looks inside a value)
+     A history may also assign a new TTL (`OpSetTtl`, `tracker.ttl_in_seconds = ...`) and switch an ordered tracker to
+     unordered (`OpUnordered`, `tracker.stream_is_ordered = False`); the specification is told (`SpSetTtl`, `SpUnordered`)
+     and judges every update by the mode, every expiry by the TTL, in force when it happens (`sp_mode`, `sp_ttl_after`).
+     The model `trk_step` is the tracker with subscriber callbacks that return normally (Props/C13.v
+     C13_quiet_subscribers_give_trk_step ties it to the general model in which they may raise). *)
 From Coq Require Import ZArith List Bool.
 Require Import Prim.Exn Prim.IntDict Model.Tracker Spec.TrackerSpec Proofs.TrackerProofs.
 Import ListNotations.
 Open Scope Z_scope.
 
 (* The refinement, for all histories, both modes, every TTL.  Which MMSIs expiry removes is taken from the DELETED
-   events of each step here (that they are the right ones is C13); C12_refinement_exact below closes the loop. *)
+   events of each step here (that they are the right ones is C13); C12_refinement_exact below closes the loop.
+   `trk_run_ok`: a history may feed the table through the public `insert_or_update()` (OpInsertOrUpdate), which does not
+   check the order of the timestamps; in ORDERED mode the caller must then not hand it a timestamp older than a track
+   (`op_ok`) -- otherwise the unchanged code itself leaves the table unsorted and its ordered-stream check compares with the
+   wrong track.  For histories without that operation `trk_run_ok` is just True (C12_ok_without_insert_or_update). *)
 Theorem C12_refinement : forall (V : Type) (nattrs : nat) (ttl : option Z) (ordered : bool) (h : list (trk_op V)) (m : Z),
+  trk_run_ok nattrs (trk_init ttl ordered) h ->
   let run := trk_run nattrs (trk_init ttl ordered) h in
   abs_get (fst run) m = sp_track_of nattrs m (sp_run ordered [] (spec_history h (snd run))).
-Proof. exact (fun V nattrs ttl ordered h m => @refinement V nattrs ttl ordered h m). Qed.
+Proof. exact (fun V nattrs ttl ordered h m OK => @refinement V nattrs ttl ordered h OK m). Qed.
 Print Assumptions C12_refinement.
 
 (* The same against the specification that computes expiry itself (every track whose age has reached the TTL, and
    no other, is removed by update()/cleanup()): no information flows from the implementation into the specification. *)
 Theorem C12_refinement_exact : forall (V : Type) (nattrs : nat) (ttl : option Z) (ordered : bool) (h : list (trk_op V)) (m : Z),
+  trk_run_ok nattrs (trk_init ttl ordered) h ->
   abs_get (fst (trk_run nattrs (trk_init ttl ordered) h)) m
   = sp_track_of nattrs m (sp_run_exact ttl ordered (map abs_op h)).
-Proof. exact (fun V nattrs ttl ordered h m => @refinement_exact V nattrs ttl ordered h m). Qed.
+Proof. exact (fun V nattrs ttl ordered h m OK => @refinement_exact V nattrs ttl ordered h OK m). Qed.
 Print Assumptions C12_refinement_exact.
+
+Theorem C12_ok_without_insert_or_update : forall (V : Type) (nattrs : nat) (h : list (trk_op V)) (st : trk_tracker V),
+  (forall now msg ts, ~ In (OpInsertOrUpdate now msg ts) h) -> trk_run_ok nattrs st h.
+Proof. exact (fun V => @run_ok_without_insert V). Qed.
+Print Assumptions C12_ok_without_insert_or_update.
 
 (* Exactly one track per MMSI: the MMSIs of the tracks are pairwise different, every track is found under its own
    MMSI, and what get_track(m) returns is a track of the table with mmsi = m and the full attribute list. *)
@@ -85,3 +101,39 @@ Example C12_nonvacuous :
   sp_track_of 3 111 (sp_run_exact (Some 20) false (map abs_op h)) = Some (mkSpTrack 13 [Some 5; Some 0; None]) /\
   sp_track_of 3 222 (sp_run_exact (Some 20) false (map abs_op h)) = None.
 Proof. vm_compute. repeat split. Qed.
+
+(* non-vacuity with a changing configuration: an ordered tracker rejects the older timestamp of 222, is switched to
+   unordered and accepts it; the TTL is shortened from 100 to 6 and the cleanup() at the same instant removes 111 *)
+Example C12_nonvacuous_reconfigured :
+  let h := [OpUpdate 10 (mkMsg 111 [MPresent (Some 5)]) (Some 4);
+            OpUpdate 10 (mkMsg 222 [MPresent (Some 6)]) (Some 2);
+            OpUnordered;
+            OpUpdate 10 (mkMsg 222 [MPresent (Some 6)]) (Some 5);
+            OpCleanup 10;
+            OpSetTtl (Some 6);
+            OpCleanup 10] in
+  let run := trk_run 1 (trk_init (Some 100) true) h in
+  map (@tr_mmsi Z) (trk_tracks (fst run)) = [222] /\
+  map (@r_exn Z) (snd run) = [None; Some (Py ValueError); None; None; None; None; None] /\
+  sp_track_of 1 111 (sp_run_exact (Some 100) true (map abs_op h)) = None /\
+  sp_track_of 1 222 (sp_run_exact (Some 100) true (map abs_op h)) = Some (mkSpTrack 5 [Some 6]).
+Proof. vm_compute. repeat split. Qed.
+
+(* non-vacuity with the public insert_or_update(): an unordered tracker fed through it (no ordering rule, no expiry: the
+   stale 111 stays until the next cleanup()); the history satisfies trk_run_ok (unordered mode: nothing to respect) *)
+Example C12_nonvacuous_insert_or_update :
+  let h := [OpInsertOrUpdate 50 (mkMsg 111 [MPresent (Some 5)]) (Some 4);
+            OpInsertOrUpdate 50 (mkMsg 222 [MPresent (Some 6)]) (Some 2);
+            OpInsertOrUpdate 50 (mkMsg 111 [MPresent (Some 7)]) (Some 3);
+            OpInsertOrUpdate 50 (mkMsg 111 [MPresent None]) None;
+            OpCleanup 60] in
+  let run := trk_run 1 (trk_init (Some 20) false) h in
+  trk_run_ok 1 (trk_init (Some 20) false) h /\
+  map (@r_exn Z) (snd run) = [None; None; Some (Py ValueError); None; None] /\
+  trk_tracks (fst run) = [mkTrack 111 [Some 5] 50] /\
+  sp_track_of 1 111 (sp_run_exact (Some 20) false (map abs_op h)) = Some (mkSpTrack 50 [Some 5]) /\
+  sp_track_of 1 222 (sp_run_exact (Some 20) false (map abs_op h)) = None.
+Proof.
+  split; [|vm_compute; repeat split].
+  simpl. repeat split; intros [X _]; discriminate.
+Qed.
